@@ -279,6 +279,12 @@ func monC09(c *drv.Ctx) {
 				break
 			}
 			h := []heldSlice{{b: out, snap: append([]byte(nil), out...), op: i}}
+			if r.Intn(3) == 0 {
+				// Grow is exported (the decoder implements SkipDecoderIface): called between two Next calls it
+				// must not give away the buffer the outstanding result lives in
+				d.Grow(1 + r.Intn(6000))
+				cs.C.Obs("Grow calls while a result is outstanding", 1)
+			}
 			if san.PoolShim {
 				if san.PoolInFreed(out) {
 					cs.Fail("retained-slice-in-recycled-memory", M{"when": "readerskipdecoder"}, M{"message": fmt.Sprintf("result #%d lies in memory already recycled into the pool", i)})
